@@ -233,7 +233,14 @@ def make(kind, sc):
         return Prim(kind, (f(p), f(n)), PPlane(p, n), [n])
     if kind == "triangle":
         R = sc.frame(); c = sc.point()
-        if sc.structured and rng.random() < 0.7:
+        if rng.random() < 0.15:
+            # sliver: all edges inside the size domain, height 1e-7..1e-2 (non-zero area)
+            l1 = sc.length()
+            V = np.array([c, c + R[:, 0] * l1, c + R[:, 0] * l1 * rng.uniform(0.3, 0.7) + R[:, 1] * 10 ** rng.uniform(-7, -2)])
+            for i in range(3):
+                if np.linalg.norm(V[i] - V[(i + 1) % 3]) < SMIN:
+                    V = c + (V - c) * (SMIN * 1.05 / np.linalg.norm(V[i] - V[(i + 1) % 3]))
+        elif sc.structured and rng.random() < 0.7:
             l1, l2 = sc.length(), sc.length()
             V = np.array([c, c + R[:, 0] * l1, c + R[:, 1] * l2])
             if rng.random() < 0.5:
@@ -423,3 +430,112 @@ def reference(p1, p2, L):
     if not r["closed"]:
         return None, "open"
     return r["ub"], "certificate"     # a feasible pair: the true minimum is <= ub (sound for 'd is not above the minimum')
+
+
+def rebuild(kind, args):
+    """Prim from library arguments (used after translating a primitive)"""
+    f = lambda a: np.array(a, dtype=float, order="C")  # noqa: E731
+    if kind == "point":
+        return Prim(kind, (f(args[0]),), hull([args[0]]), [])
+    if kind == "line":
+        return Prim(kind, (f(args[0]), f(args[1])), PLine(args[0], args[1]), [args[1]])
+    if kind == "segment":
+        d = np.asarray(args[1], float) - np.asarray(args[0], float)
+        return Prim(kind, (f(args[0]), f(args[1])), hull([args[0], args[1]]), [d / max(1e-300, np.linalg.norm(d))])
+    if kind == "plane":
+        return Prim(kind, (f(args[0]), f(args[1])), PPlane(args[0], args[1]), [args[1]])
+    if kind == "triangle":
+        V = np.asarray(args[0], float)
+        n = np.cross(V[1] - V[0], V[2] - V[0]); nn = np.linalg.norm(n)
+        dirs = [n / nn] if nn > 0 else []
+        dirs += [(V[(i + 1) % 3] - V[i]) / max(1e-300, np.linalg.norm(V[(i + 1) % 3] - V[i])) for i in range(3)]
+        return Prim(kind, (f(V),), hull(V), dirs)
+    if kind == "rectangle":
+        c, axes, l = (np.asarray(a, float) for a in args)
+        V = [c + sx * 0.5 * l[0] * axes[0] + sy * 0.5 * l[1] * axes[1] for sx in (-1, 1) for sy in (-1, 1)]
+        return Prim(kind, (f(c), f(axes), f(l)), hull(V), [np.cross(axes[0], axes[1]), axes[0], axes[1]])
+    if kind in ("circle", "disk"):
+        c, r, n = args
+        orc = PCircle(c, r, n) if kind == "circle" else O.ODisk(c, r, n)
+        return Prim(kind, (f(c), float(r), f(n)), orc, [np.asarray(n, float)])
+    if kind == "box":
+        T, size = args
+        return Prim(kind, (f(T), f(size)), O.OBox(T, size), [np.asarray(T, float)[:3, i] for i in range(3)])
+    if kind in ("ellipsoid", "ellipsoid_surface"):
+        T, radii = args
+        orc = O.OEllipsoid(T, radii) if kind == "ellipsoid" else PEllipsoidSurface(T, radii)
+        return Prim(kind, (f(T), f(radii)), orc, [np.asarray(T, float)[:3, i] for i in range(3)])
+    if kind == "cylinder":
+        T, r, ln = args
+        return Prim(kind, (f(T), float(r), float(ln)), O.OCylinder(T, r, ln), [np.asarray(T, float)[:3, 2]])
+    raise ValueError(kind)
+
+
+def translated(p, shift):
+    shift = np.asarray(shift, float)
+    k = p.kind
+    a = [np.array(x, dtype=float) if isinstance(x, np.ndarray) else x for x in p.args]
+    if k in ("point", "line", "plane", "rectangle", "circle", "disk"):
+        a[0] = a[0] + shift
+    elif k == "segment":
+        a[0] = a[0] + shift; a[1] = a[1] + shift
+    elif k == "triangle":
+        a[0] = a[0] + shift
+    else:
+        a[0][:3, 3] += shift
+    return rebuild(k, a)
+
+
+def some_point_of(p, rng):
+    """a point of the primitive (random interior / on-curve point)"""
+    k = p.kind
+    a = p.args
+    if k == "point":
+        return np.array(a[0])
+    if k == "line":
+        return a[0] + a[1] * rng.normal() * 3
+    if k == "segment":
+        t = rng.uniform(0, 1) if rng.random() < 0.7 else float(rng.choice([0.0, 1.0]))
+        return a[0] + t * (a[1] - a[0])
+    if k == "plane":
+        v = rng.normal(size=3) * 3
+        return a[0] + v - (v @ a[1]) * a[1]
+    if k == "triangle":
+        w = rng.dirichlet(np.ones(3))
+        if rng.random() < 0.2:
+            w = np.array([0.5, 0.5, 0.0])[rng.permutation(3)]
+        return w @ a[0]
+    if k == "rectangle":
+        u = rng.uniform(-0.5, 0.5, size=2)
+        return a[0] + u[0] * a[2][0] * a[1][0] + u[1] * a[2][1] * a[1][1]
+    if k in ("circle", "disk"):
+        c, r, n = a
+        e = np.eye(3)[int(np.argmin(np.abs(n)))]
+        x = np.cross(n, e); x /= np.linalg.norm(x); y = np.cross(n, x)
+        t = rng.uniform(0, 2 * np.pi)
+        rr = r if k == "circle" else r * math.sqrt(rng.uniform(0, 1))
+        return c + rr * (math.cos(t) * x + math.sin(t) * y)
+    if k == "box":
+        T, size = a
+        return T[:3, 3] + T[:3, :3] @ (rng.uniform(-0.5, 0.5, size=3) * size)
+    if k in ("ellipsoid", "ellipsoid_surface"):
+        T, radii = a
+        v = gen.rand_dir(rng) * (rng.uniform(0, 1) ** (1 / 3) if k == "ellipsoid" else 1.0)
+        return T[:3, 3] + T[:3, :3] @ (v * radii)
+    if k == "cylinder":
+        T, r, ln = a
+        t = rng.uniform(0, 2 * np.pi); rr = r * math.sqrt(rng.uniform(0, 1))
+        return T[:3, 3] + T[:3, :3] @ np.array([rr * math.cos(t), rr * math.sin(t), rng.uniform(-0.5, 0.5) * ln])
+    raise ValueError(k)
+
+
+def has_sliver(*ps):
+    """True if one of the primitives is a triangle whose smallest altitude is below 1e-3 of its longest edge"""
+    for p in ps:
+        if p.kind == "triangle":
+            V = np.asarray(p.args[0], float)
+            e = [float(np.linalg.norm(V[(i + 1) % 3] - V[i])) for i in range(3)]
+            area2 = float(np.linalg.norm(np.cross(V[1] - V[0], V[2] - V[0])))
+            if max(e) > 0 and area2 / max(e) < 1e-3 * max(e):
+                return True
+    return False
